@@ -102,6 +102,6 @@ bool is_valid_b64(const u8_t* base64_in, int len) {
         else if (tail != 0)
             return false;
     }
-    return true;
+    return tail == 2; // a 16-byte value encodes to 22 symbols followed by exactly two '='
 
 }
